@@ -387,21 +387,21 @@ def gen_dicts(rng, spec, quick):
 
 
 def own_dispatch_key(spec, gname):
-    """The option key that drives the top-level dispatch of a graph (None when there is none)."""
+    """(option key that drives the top-level dispatch of a graph | None, read directly by the graph?)"""
     by = {ds["name"]: ds for ds in spec["datasets"]}
     for dv in spec.get("derived", []):
         if dv["name"] == gname:
             gname = dv["base"]
     ds = by.get(gname)
     if ds is None:
-        return None
+        return None, False
     d = ds.get("dispatch")
     if not d:
-        return None
+        return None, False
     if d[0] in ("key", "optd"):
-        return d[1]
+        return d[1], True
     src = by[d[1]]["params"][0][1]
-    return src[1]
+    return src[1], False
 
 
 # ============================================================================ observation
@@ -1105,11 +1105,10 @@ class ModuleRun:
 
     def graph_nontrivial(self, rec):
         ms = rec.get("msA")
-        if ms is None:
+        if ms is None or ms[0] != "dataset":
             return True
-        s = json.dumps(ms)
-        return ('"apply"' in s and s.count('"dataset"') > 1) or bool(ms[2 if ms[0] == "overloaded" else 1][2] if ms[0] == "dataset" else False) \
-            or bool(ms[4]) or bool(ms[5]) or bool(ms[6])
+        nested = json.dumps(ms).count('"dataset"') > 1
+        return nested or bool(ms[1][2]) or bool(ms[4]) or bool(ms[5]) or bool(ms[6])
 
     def model_case(self, expr, impl, payload):
         self.model_cases.append((expr, impl, dict(payload, module=self.spec["module"])))
@@ -1147,9 +1146,9 @@ class ModuleRun:
 
     def phase_copies(self, protos_warm):
         log = self.mod.LOG
-        R = self.R
         for name, rec in self.graphs.items():
-            info = rec["infoA"]
+            if name == "__bundles__":
+                continue
             for tag in ("A", "B"):
                 for p in PROTOCOLS:
                     if tag == "B" and p not in protos_warm:
@@ -1167,16 +1166,6 @@ class ModuleRun:
                         self.v("pickle.loads fails", name, protocol=p, mode=mode, state=tag, error=type(e).__name__)
                         continue
                     self.compare_copy(rec, h, tag, p, mode, log=log)
-                    # correspondence: state of the copy and its locks vs the model's setstate (getstate t)
-                    if rec["ms" + tag] is not None and tag == "A" and p in (0, 2, 5):
-                        try:
-                            msh, infoh = model_state(h)
-                        except Unmodelled as e:
-                            self.mism.append(dict(where="state_of(unpickled) outside the model", graph=name, error=str(e),
-                                                  module_spec=self.spec))
-                            continue
-                        # states were taken before the observation pass of h?  No: after.  Compare with B.
-                        rec.setdefault("copies", []).append((p, msh, infoh))
                     # a second generation: pickle the copy again
                     if tag == "A" and p == 4:
                         try:
@@ -1190,6 +1179,8 @@ class ModuleRun:
         """Model correspondence on states: fresh copies (no observation in between)."""
         R = self.R
         for name, rec in self.graphs.items():
+            if name == "__bundles__":
+                continue
             for tag in ("A", "B"):
                 ms, info = rec["ms" + tag], rec["info" + tag]
                 if ms is None:
@@ -1229,15 +1220,13 @@ class ModuleRun:
                                         dict(what="lock objects after round trip (same process)", graph=name, state=tag, protocol=p))
 
     def reg_dicts(self, name):
-        dk = own_dispatch_key(self.spec, name)
+        """[{}, full, full with the graph's own dispatch key = the new alias, ... = an unregistered value]"""
+        dk, _ = own_dispatch_key(self.spec, name)
         full = self.dicts[1]
         alias = "new_" + name
-        out = []
+        out = [{}, full]
         if dk is not None:
             out.append(_nest_set(full, dk, alias))
-        out.append(full)
-        out.append({})
-        if dk is not None:
             out.append(_nest_set(full, dk, "nope"))
         return alias, out
 
@@ -1246,6 +1235,8 @@ class ModuleRun:
         log = self.mod.LOG
         R = self.R
         for name, rec in self.graphs.items():
+            if name == "__bundles__":
+                continue
             alias, rdicts = self.reg_dicts(name)
             rec["alias"], rec["rdicts"], rec["reg_obs"] = alias, rdicts, []
             for p in (0, 3, 5):
@@ -1291,7 +1282,7 @@ class ModuleRun:
             bundle = [base, der]
             gs0 = generic_state(bundle)
             alias, rdicts = "newb_" + dv["name"], None
-            dk = own_dispatch_key(self.spec, dv["base"])
+            dk, _ = own_dispatch_key(self.spec, dv["base"])
             full = self.dicts[1]
             rdicts = [_nest_set(full, dk, alias)] if dk else [full]
             rec = {"name": dv["name"], "gs": gs0, "alias": alias, "rdicts": rdicts, "obs": [], "bytes": {}}
@@ -1347,17 +1338,15 @@ class ModuleRun:
                 rec["reg_ref"] = None
                 continue
             rec["reg_ref"] = strip_log(observe(g, rec["rdicts"], log))
-            dk = own_dispatch_key(self.spec, name)
+            dk, direct = own_dispatch_key(self.spec, name)
             for p, mode, obs in rec["reg_obs"]:
                 self.check_reg(rec, obs, p, mode)
-            if dk is not None:
+            if dk is not None and direct and not self.dispatch_pinned(name, dk):
                 # the new alias dispatches to the new overload (sanity of the reference itself)
-                v = rec["reg_ref"][0]["v"]
+                v = rec["reg_ref"][2]["v"]
                 if v[0] == "ok" and "extra_impl" not in json.dumps(v[1]):
-                    # a pre-set option may pin the dispatch key: then the alias cannot be selected at all
-                    if not self.dispatch_pinned(name, dk):
-                        self.v("after register(k, v) the ORIGINAL does not dispatch to v for k", name,
-                               options=rec["rdicts"][0], value=v)
+                    self.v("after register(k, v) the ORIGINAL does not dispatch to v for k", name,
+                           options=rec["rdicts"][2], value=v)
         for dname, rec in self.graphs.get("__bundles__", {}).items():
             dv = [d for d in self.spec["derived"] if d["name"] == dname][0]
             base, der = getattr(self.mod, dv["base"]), getattr(self.mod, dv["name"])
@@ -1382,6 +1371,14 @@ class ModuleRun:
 
     def check_reg(self, rec, obs, p, mode):
         ref = rec.get("reg_ref")
+        if obs is not None:
+            for i in (0, 1):   # {} and the sufficient dictionary: not dispatching to the new alias
+                before = rec["obsA"][i]
+                if any(obs[i][f] != json.loads(json.dumps(before[f])) for f in ("v", "k", "x")):
+                    self.v("a further registration on the unpickled dataset changed the behaviour for OTHER dispatch values",
+                           rec["name"], protocol=p, mode=mode, options=self.dicts[i], alias=rec["alias"],
+                           before={f: before[f] for f in ("v", "k", "x")}, after={f: obs[i][f] for f in ("v", "k", "x")})
+                    break
         if ref is None or obs is None:
             return
         for o, a, b in zip(rec["rdicts"], ref, obs):
@@ -1449,8 +1446,6 @@ class ModuleRun:
         bypass = isinstance(rec["bytes" + tag][p], Exception)
         if bypass:
             mode += "/d18-bypass"
-        self.compare_copy(rec, None, tag, p, mode, obs=r["obs"], gs_json=True, gs=r["gs"]) if False else None
-        # (json round trip of the parent's images: tuples/lists are already lists)
         want_gs = json.loads(json.dumps(rec["gs" + tag]))
         self.stats["state_compares"] += 1
         if r["gs"] != want_gs:
@@ -1474,9 +1469,16 @@ class ModuleRun:
         else:
             self.stats["register_checks"] += 1
             self.check_reg(rec, r["obs_reg"], p, mode)
-        # correspondence: the state found in the child vs the model's round trip (fresh process: empty _LOCKS)
-        if rec["ms" + tag] is not None and isinstance(r.get("ms"), list) and r["ms"][0] != "unmodelled" and hashseed == 0:
-            pass  # compared on the image taken BEFORE observation only in-process; the child's image is post-observation
+        # correspondence: the state found in the child (taken right after loading) vs the model's
+        # setstate (getstate t) in a process whose _LOCKS does not know the old ids
+        if rec["ms" + tag] is not None and isinstance(r.get("ms"), list) and p in (0, 2, 5):
+            if r["ms"][0] == "unmodelled":
+                self.mism.append(dict(where="state_of(unpickled copy) outside the model", graph=name, protocol=p, state=tag,
+                                      mode=mode, error=r["ms"][1], module_spec=self.spec))
+            else:
+                P = "{| locks := []; next_lock := 5000; next_id := 9000 |}"
+                self.model_case(f"show_roundtrip {P} {self.R.g_node(rec['ms' + tag])}", self.R.s_node(r["ms"]),
+                                dict(what="state after round trip", graph=name, state=tag, protocol=p, mode=mode))
 
 
 def _nest_set(d, key, val):
@@ -1551,7 +1553,8 @@ def run_specs(ctx, specs_dicts, hashseeds, only=None, quick=True):
     for mr in runs:
         # aliases / registration dictionaries are needed by the child jobs
         for name, rec in mr.graphs.items():
-            rec["alias"], rec["rdicts"] = mr.reg_dicts(name)
+            if name != "__bundles__":
+                rec["alias"], rec["rdicts"] = mr.reg_dicts(name)
         mr.phase_bundles()
     # children: everything pickled so far, one interpreter per hash seed
     children = []
